@@ -13,3 +13,6 @@ open SophiaProofs.C06
 #print axioms C06_witness_agrees
 #print axioms C06_family_agrees
 #print axioms fails_only_explicitly
+#print axioms never_fails_within_limits
+#print axioms hash_related_as_specified
+#print axioms skip_rule_monotone
